@@ -165,6 +165,63 @@ def main():
             if e.tag == XS + "complexType":
                 cts.append(e.get("name"))
     out["complex_types"] = sorted(cts)
+    # ---- the name table generateDS applies at regeneration (generateds_config.py executed by path in a scratch dir,
+    #      with the tree's own config.py and schema files) against the shipped name_table.csv and the member names in nml.py
+    import csv
+    import keyword
+    import shutil
+    import subprocess
+    import tempfile
+    regen_table, regen_err = None, ""
+    scratch = tempfile.mkdtemp(prefix="verif_c20_")
+    try:
+        for fn in os.listdir(NML):
+            if fn.endswith(".xsd") or fn in ("generateds_config.py", "config.py"):
+                shutil.copy(os.path.join(NML, fn), scratch)
+        code = ("import sys, json; sys.path.insert(0, '/venv/bin'); sys.path.insert(0, %r); import generateds_config as g; "
+                "print('NAMETABLE' + json.dumps(g.NameTable))" % scratch)
+        pr = subprocess.run([sys.executable, "-c", code], cwd=scratch, capture_output=True, text=True, timeout=300)
+        for line in pr.stdout.splitlines():
+            if line.startswith("NAMETABLE"):
+                regen_table = json.loads(line[len("NAMETABLE"):])
+        if regen_table is None:
+            regen_err = (pr.stderr or pr.stdout)[-500:]
+    except Exception as e:  # fail closed
+        regen_err = repr(e)
+    finally:
+        shutil.rmtree(scratch, ignore_errors=True)
+    shipped_table = {}
+    nt = os.path.join(NML, "name_table.csv")
+    if os.path.exists(nt):
+        for r in csv.reader(open(nt)):
+            if len(r) == 2:
+                shipped_table[r[0]] = r[1]
+    out["name_table_regen"] = sorted(regen_table.items()) if regen_table is not None else [["<generateds_config failed>", regen_err]]
+    out["name_table_shipped"] = sorted(shipped_table.items())
+    # members of the shipped bindings must carry the names the table prescribes (python name = table[xml name],
+    # keyword-suffixed with '_' or, for an attribute clashing with a child element, with '_attr')
+    viol = []
+    tab = regen_table or {}
+    for c in binding_classes:
+        for b in c.body:
+            if isinstance(b, ast.Assign) and getattr(b.targets[0], "id", "") == "member_data_items_" and isinstance(b.value, ast.List):
+                for e in b.value.elts:
+                    try:
+                        a = [ast.literal_eval(x) for x in e.args]
+                    except Exception:
+                        continue
+                    py = a[0]
+                    xml = a[4].get("name") if len(a) > 4 and isinstance(a[4], dict) else None
+                    if xml is None:
+                        continue
+                    want = tab.get(xml)
+                    if want is None:
+                        continue
+                    if want in keyword.kwlist:
+                        want += "_"
+                    if py not in (want, want + "_attr"):
+                        viol.append([c.name, xml, py, want])
+    out["member_name_violations"] = viol
     # generateDS renames via cleanupName: only ':' '-' '.' -> '_' (none occur); keep identity but report
     print(json.dumps(out))
 
